@@ -19,8 +19,8 @@ EXPLANATION = ('Every accessor, constructor, minor and transpose of the 11 matri
                'the stated permutation of bare input atoms (bit-exact for every bit pattern); matrix-vector products and affine point/vector '
                'transforms must equal sum_c v[c]*col(c) (+ translation) as polynomials.  Index arguments are specialised to every constant.')
 
-CONFIGS_QUICK = ['sse2', 'scalar']
-CONFIGS_THOROUGH = ['sse2', 'scalar', 'coresimd', 'neon', 'wasm32']
+CONFIGS_QUICK = ['sse2', 'sse2-fma', 'sse41', 'scalar', 'coresimd', 'neon', 'wasm32']
+CONFIGS_THOROUGH = ['sse2', 'sse2-fma', 'sse41', 'scalar', 'coresimd', 'neon', 'wasm32']
 
 
 def poly_eq(a, b):
